@@ -24,7 +24,7 @@ from sim.sched import Sched, SimDeadlock, SimHang, DONE
 STORAGES = ['Storage', 'PickleStorage', 'Hdf5Storage', '_NumpyStorage', '_NpcArrayStorage']
 KEYS = ['a', 'b', 'c', 'd']
 OP_KINDS = ['set', 'get', 'getd', 'del', 'in', 'len', 'iter', 'pop', 'setdefault', 'update', 'clear', 'items',
-            'preload', 'stk', 'sub', 'bool', 'sleep', 'popitem', 'values', 'keys']
+            'preload', 'stk', 'sub', 'bool', 'sleep', 'popitem', 'values', 'keys', 'mutset']
 TRACE_FILES = ('tenpy/tools/cache.py', 'tenpy/tools/thread.py')
 
 
@@ -370,7 +370,9 @@ def gen_plan(run_seed, fault_mode=None):
         kind = wl.choices(kinds, [weights[k] for k in kinds])[0]
         c = wl.randrange(n_caches)
         k = wl.choice(keys)
-        if kind in ('set', 'setdefault'):
+        if kind in ('set', 'setdefault', 'mutset'):
+            # mutset: the object written to this key last time is modified in place and written again (same object,
+            # new content) - what an algorithm does that updates a cached tensor; a plain set if there is none
             uid += 1
             ops.append([kind, c, k, uid])
         elif kind in ('get', 'getd', 'del', 'in', 'pop'):
@@ -580,6 +582,8 @@ class _RunState:
         self.worker_obj = None
         self.fault_seen = False  # an injected fault (io error / kill) has fired
         self.error_log = []
+        self.last_obj = {}  # (cache index, key) -> the object most recently written there by set / mutset
+        self.reuse = False
         self.stalls = {int(i): float(t) for i, t in plan.get('stalls', [])}
 
     # ---------------------------------------------------------------- helpers
@@ -725,6 +729,9 @@ class _RunState:
     # ---------------------------------------------------------------- one operation
     def step(self, i, op):
         kind = op[0]
+        self.reuse = (kind == 'mutset')
+        if kind == 'mutset':
+            kind, op = 'set', ['set'] + list(op[1:])
         if self.kind == 'opt':
             if kind in ('set', 'setdefault'):
                 op = op[:3] + [canon_uid('opt', op[3])]
@@ -818,7 +825,17 @@ class _RunState:
     def apply(self, kind, op, cache):
         vk = self.kind
         if kind == 'set':
-            cache[op[2]] = mkval(vk, op[3])
+            val = None
+            old = self.last_obj.get((op[1], op[2]))
+            if self.reuse and vk == 'dict' and isinstance(old, dict):
+                old['uid'] = op[3]
+                old['pad'] = [op[3], op[3] + 1]
+                val = old
+                self.sched.probe('same_object_modified_and_written_again')
+            if val is None:
+                val = mkval(vk, op[3])
+            self.last_obj[(op[1], op[2])] = val
+            cache[op[2]] = val
             return None
         if kind == 'get':
             return cache[op[2]]
